@@ -6,15 +6,18 @@ OUT=/verif/seeded/$ID
 mkdir -p $OUT
 cp $WT/seed_out/patch.diff $WT/seed_out/demo.py $WT/seed_out/meta.json $OUT/ 2>/dev/null
 cd $WT
+# put the worktree into exactly the state of the delivered patch (agents share one git stash, do not rely on it)
+git checkout -q -- litex
+git apply seed_out/patch.diff || { echo "patch.diff does not apply"; exit 3; }
 git diff --stat -- litex | tail -1
 # demo on changed code
 timeout 900 /venv/bin/python seed_out/demo.py $WT > $OUT/demo_changed.log 2>&1; DC=$?
 # tests on changed code
 PYTHONPATH=$WT timeout 1500 /venv/bin/python -m pytest -q -p no:cacheprovider --timeout=900 --continue-on-collection-errors --junitxml=$OUT/tests_changed.xml test/ > $OUT/tests_changed.log 2>&1
 # demo on original code
-git stash -q -- litex
+git apply -R seed_out/patch.diff
 timeout 900 /venv/bin/python seed_out/demo.py $WT > $OUT/demo_original.log 2>&1; DO=$?
-git stash pop -q
+git apply seed_out/patch.diff
 /venv/bin/python - $OUT <<'PY'
 import sys, json, xml.etree.ElementTree as ET
 out = sys.argv[1]
